@@ -442,8 +442,52 @@ def rule_last(repo):
     return res
 
 
+ADV_TABLE = {'pypose.module.dynamics:runsys': 1, 'pypose.module.lqr:LQR.lqr_forward': 1}
+ADV_NAMES = {'system', 'self.system', 'model', 'self.model', 'sys', 'self.sys', 'dynamics', 'self.dynamics', 'self.dynamic'}
+
+
+@guarded
+def rule_adv(repo, rid='C15.ADV'):
+    """Calling a System object runs its forward hook: the clock advances by one and self.state / self.input are overwritten.  The library calls a system in two
+    places only - one call per roll-out step in runsys and in LQR.lqr_forward; the filters and the backward pass use state_transition / observation /
+    set_refpoint, which leave the clock alone.  Any other call (a feasibility probe, a warm-up evaluation, a logged prediction) moves the time of every later
+    step of a time-varying system."""
+    res = RuleResult(rid, 'a System object is CALLED (clock + 1, state / input overwritten) only at the %d tabled sites - once per roll-out step in runsys and '
+                     'LQR.lqr_forward; nothing else in dynamics / lqr / mpc / ekf / ukf / pf calls the system itself' % len(ADV_TABLE), floor=2)
+    n = 0
+    for modname in ('pypose.module.dynamics', 'pypose.module.lqr', 'pypose.module.mpc', 'pypose.module.ekf', 'pypose.module.ukf', 'pypose.module.pf'):
+        for f in repo.module(modname).functions.values():
+            sites = [c for c in paths.calls_in(f.node) if (dotted(c.func) or '') in ADV_NAMES]
+            # a System method that calls its own object: self(state, input)
+            if f.cls is not None and any(getattr(b, 'name', b) in ('System', 'LTI', 'LTV', 'NLS') for b in repo.mro(f.cls)):
+                sites += [c for c in paths.calls_in(f.node) if isinstance(c.func, ast.Name) and c.func.id == 'self']
+                sites += [c for c in paths.calls_in(f.node) if isinstance(c.func, ast.Attribute) and c.func.attr == '__call__' and
+                          (dotted(c.func.value) == 'self' or (isinstance(c.func.value, ast.Call) and dotted(c.func.value.func) == 'super'))]
+            # one level of aliasing: `f = self.system` ; f(x, u)
+            alias = {a.targets[0].id for a in ast.walk(f.node) if isinstance(a, ast.Assign) and len(a.targets) == 1 and isinstance(a.targets[0], ast.Name)
+                     and (dotted(a.value) or '') in ADV_NAMES}
+            sites += [c for c in paths.calls_in(f.node) if isinstance(c.func, ast.Name) and c.func.id in alias]
+            # explicit forward / __call__
+            sites += [c for c in paths.calls_in(f.node) if isinstance(c.func, ast.Attribute) and c.func.attr in ('__call__',) and (dotted(c.func.value) or '') in ADV_NAMES]
+            if not sites and f.fq not in ADV_TABLE:
+                continue
+            n += 1
+            allowed = ADV_TABLE.get(f.fq, 0)
+            res.inst({'function': f.fq, 'system calls': [src(c)[:50] for c in sites], 'tabled': allowed}, f.fq)
+            if len(sites) > allowed:
+                for c in sites[allowed:]:
+                    res.add(Finding(rid, f, '`%s` calls the system object in %s (%d calls tabled): every call advances the system clock by one and overwrites system.state / '
+                                    '.input, so the steps that follow - and the caller\'s next use of the system - happen at a later time than documented'
+                                    % (src(c)[:60], f.fq.split(':')[-1], allowed), node=c, construct='extra system call|' + norm_construct(c, f.node)))
+            elif len(sites) < allowed:
+                raise AnalysisError('%s: %s no longer calls the system (%d of %d sites)' % (rid, f.fq, len(sites), allowed))
+    if n < 2:
+        raise AnalysisError('%s: the roll-out calls of runsys / lqr_forward were not found' % rid)
+    return res
+
+
 def _rules_core(repo, tier):
-    return [rule_own_hook(repo), rule_super(repo), rule_lin(repo), rule_eq(repo), rule_pure(repo), rule_snap(repo), rule_last(repo)]
+    return [rule_own_hook(repo), rule_super(repo), rule_lin(repo), rule_eq(repo), rule_pure(repo), rule_snap(repo), rule_last(repo), rule_adv(repo)]
 
 
 def rules(repo, tier):
